@@ -68,7 +68,10 @@ Bad(e) ==
                     /\ res("L-1").res = "none"
                     /\ res("L").res = "some" /\ res("L").ns = n
                     /\ res("L+1").res = "some" /\ res("L+1").ns = n
-                    /\ res("max").res = "some" /\ res("max").ns = n>>,
+                    /\ res("max").res = "some" /\ res("max").ns = n
+                    \* every other bound tried is >= n (bounds around 2^16, 2^32, 2^40, the largest ones)
+                    /\ \A k \in 1..Len(e.tries) :
+                          e.tries[k].n \notin {"0", "L-1"} => e.tries[k].res = "some" /\ e.tries[k].ns = n>>,
                  <<"C19:compile_num_states", e.compile_ns = n>>})
     [] e.op = "replace_re" ->
          LET t == Core(e.ast) IN
